@@ -15,7 +15,7 @@ GEN_DEPS = []
 RULE = ('(a) random compiled-rule records (0-5 symbols, terminals/rules, `_` names, filter_out, alias, template source, '
         'keep_all_tokens, expand1, empty_indices incl. inconsistent ones) x maybe_placeholders x ambiguous: the wrapper '
         'chain lark built (classes, to_include, append_none) and the result / exception of calling lark\'s real callback '
-        'object on 3 random children lists (tokens, trees, None, occasionally ill-typed or of wrong arity) against '
+        'object on 2 random children lists (tokens, trees, None, occasionally ill-typed or of wrong arity) against '
         'Shape/Chain.v and against the independent Shape/Spec.v; (b) the same for the compiled rules of random EBNF '
         'grammars; (c) end to end: random EBNF grammars using ?/!/_ rules, aliases, [..], ?, *, +, ~n..m, groups, '
         'templates, filtered and kept tokens, and (half of the grammars) symbol / word literals whose auto-names '
@@ -137,7 +137,7 @@ def callback_cases(ctx, records, stream, wild):
                                                                        'error': repr(ex)}, False, repr(ex))
                         continue
                 calls = []
-                for _ in range(3):
+                for _ in range(2):
                     ch = sl.random_children(rng, r, wild)
                     obs = None if f is None else sl.call_obs(f, ch)
                     calls.append((ch, obs))
